@@ -69,7 +69,7 @@ def ua_sites(ctx):
             kinds['unsafe impl %s for %s' % (i['trait'].split('::')[-1], i['self_head'].split('::')[-1])].append((None, None))
     expected = {
         'deref payload pointer *mut T': (5, 'UA-confine'),
-        'call alloc::boxed::Box::from_raw': (2, 'UA-free'),
+        'call alloc::boxed::Box::from_raw': (1, 'UA-free'),
         'call desync::UnsafeJob::new': (1, 'UA-wait'),
         'call desync::UnsafeJob::new_with_notification': (1, 'UA-wait'),
         'call core::intrinsics::transmute': (2, 'UA-wait (lifetime erasure inside UnsafeJob::new*)'),
@@ -158,8 +158,8 @@ def ua_free(ctx):
     badf = [fn for fn, bb in frees if (fn.root or fn.name) != '<' + DESYNC + ' as core::ops::drop::Drop>::drop']
     if badf:
         out.append(bad('UA-free', 'from_raw', 'Box::from_raw on the payload outside Desync::drop (%s): the value can be freed twice or while in use' % short(badf[0].name), fn=badf[0].name))
-    elif len(frees) < 2:
-        out.append(undecided('UA-free', 'from_raw', 'found %d Box::from_raw sites, expected 2' % len(frees)))
+    elif len(frees) < 1:
+        out.append(undecided('UA-free', 'from_raw', 'found no Box::from_raw site (expected one per final job of Desync::drop)'))
     else:
         out.append(ok('UA-free', 'from_raw', '%d sites, all inside closures of Desync::drop' % len(frees)))
     for adt in (DESYNC, DATAREF):
